@@ -91,13 +91,29 @@ impl<T: SharedResource> ReloadFeatureFactory<T> {
             return Err("shared_resource_capacity, shared_resource_demand and partial_solution must be set for shared reload feature".into());
         };
 
-        let shared_resource_threshold_fn: SharedResourceThresholdFn<T> =
-            Box::new(move |route_ctx: &RouteContext, activity_idx, demand| {
-                route_ctx
-                    .state()
-                    .get_activity_state::<SharedResourceStateKey, T>(activity_idx)
-                    .is_none_or(|resource_available| resource_available.can_fit(demand))
-            });
+        let shared_resource_threshold_fn: SharedResourceThresholdFn<T> = Box::new({
+            let resource_capacity_fn = resource_capacity_fn.clone();
+            move |route_ctx: &RouteContext, left_idx, right_idx, right_demand| {
+                let get_resource_id = |idx: usize| {
+                    route_ctx.route().tour.get(idx).and_then(|activity| (resource_capacity_fn)(activity)).map(|(_, id)| id)
+                };
+
+                match (get_resource_id(left_idx), get_resource_id(right_idx)) {
+                    // NOTE: nothing is taken from a shared resource when intervals are merged
+                    (None, _) => true,
+                    // NOTE: the same resource is used, so its total consumption stays the same
+                    (Some(left_id), Some(right_id)) if left_id == right_id => true,
+                    // NOTE: activity states of a modified route are not yet in sync with its activities
+                    (Some(_), _) if route_ctx.is_stale() => !right_demand.is_not_empty(),
+                    // NOTE: the state keeps optional values
+                    (Some(_), _) => route_ctx
+                        .state()
+                        .get_activity_state::<SharedResourceStateKey, Option<T>>(left_idx)
+                        .and_then(|resource_available| resource_available.as_ref())
+                        .is_none_or(|resource_available| resource_available.can_fit(right_demand)),
+                }
+            }
+        });
 
         let simple_reload = self.build(Some(shared_resource_threshold_fn))?;
 
@@ -240,10 +256,8 @@ impl<T: LoadOps> ReloadFeatureFactory<T> {
 
                 has_enough_vehicle_capacity
                     && shared_resource_threshold_fn.as_ref().is_none_or(|shared_resource_threshold_fn| {
-                        // total static delivery at left
-                        let left_delivery = fold_demand(left.start..right.end, |demand| demand.delivery.0);
-
-                        (shared_resource_threshold_fn)(route_ctx, left.start, &left_delivery)
+                        // static delivery of the right interval is going to be loaded at the start of the left one
+                        (shared_resource_threshold_fn)(route_ctx, left.start, right.start, &right_delivery)
                     })
             }),
             is_assignable_fn,
@@ -269,7 +283,7 @@ struct SharedResourceStateKey;
 
 type SharedResourceCapacityFn<T> = Arc<dyn Fn(&Activity) -> Option<(T, SharedResourceId)> + Send + Sync>;
 type SharedResourceDemandFn<T> = Arc<dyn Fn(&Single) -> Option<T> + Send + Sync>;
-type SharedResourceThresholdFn<T> = Box<dyn Fn(&RouteContext, usize, &T) -> bool + Send + Sync>;
+type SharedResourceThresholdFn<T> = Box<dyn Fn(&RouteContext, usize, usize, &T) -> bool + Send + Sync>;
 type PartialSolutionFn = Arc<dyn Fn(&SolutionContext) -> bool + Send + Sync>;
 
 struct SharedResourceConstraint<T: SharedResource> {
